@@ -483,3 +483,14 @@ Theorem C01_leaf_align_to_usize : forall x a, Leaf.L_align_usize_align_to_dom x 
   Leaf.L_align_usize_align_to x a = Machine.align_to W64 a x.
 Proof. exact LeafAlign.align_usize_align_to_agrees. Qed.
 Print Assumptions C01_leaf_align_to_usize.
+
+(* the source places the binders of the generated leaf definitions stand for (third audit, F2) *)
+From Coq Require Import List String.
+Import ListNotations.
+Theorem C01_leaf_reads_align :
+  Leaf.L_align_u32_align_to_args = ["self : u32"%string; "align : u32"%string] /\
+  Leaf.L_align_u32_aligned_to_args = ["self : u32"%string; "align : u32"%string] /\
+  Leaf.L_align_usize_align_to_args = ["self : usize"%string; "align : usize"%string] /\
+  Leaf.L_align_usize_aligned_to_args = ["self : usize"%string; "align : usize"%string].
+Proof. exact LeafAlign.leaf_reads_align. Qed.
+Print Assumptions C01_leaf_reads_align.
